@@ -388,8 +388,13 @@ func (w *c01worker) pickCase(g *vf.Rng, op byte, mx byte) (ref.State, *mem.Image
 func (w *c01worker) runProgram(s0 ref.State, base *mem.Image, stale bool, g *vf.Rng, maxSteps int, tag string) (steps int, endReason string) {
 	mr, mp, ma := base.Clone(), base.Clone(), base.Clone()
 	sr := s0
-	w.rig.loadPrim(s0, stale, g)
-	w.rig.loadAltFromPrim()
+	if !s0.E && g.Intn(5) == 0 {
+		w.rig.excursion(g, s0, stale)
+		w.cells["history:excursion-through-emulation-mode"]++
+	} else {
+		w.rig.loadPrim(s0, stale, g)
+		w.rig.loadAltFromPrim()
+	}
 	if g.Bool() {
 		w.rig.observeFromHooks()
 	}
